@@ -135,12 +135,12 @@ CHECKS.update({
 
 CHECKS.update({
  'C03': dict(
-   text=('PARTIAL. Proved END TO END on the literal model (lexer, symbol scanner, FOR passes, parser, compiler) for programs of labelled instructions with ORG and END, i.e. the full statement restricted to programs without EQU, FOR and ;assert and generalised to every layout (C03_labelled_programs_partial): '
+   text=('PARTIAL. Proved END TO END on the literal model (lexer, symbol scanner, FOR passes, parser, compiler) for programs of labelled instructions, EQU definitions (anywhere, used before or after their definition, nested to any depth: C03_programs_with_equ_partial) and ORG, and for programs of labelled instructions with ORG and the END line (C03_labelled_programs_partial), i.e. the full statement restricted to programs without FOR and ;assert and generalised to every layout: '
          'any text whose lexemes, with any white space between them, form a document - comment lines, an ORG line, instruction lines with label sections in any spelling (names, colons, line ends), mnemonics in any letter case with or without modifier, operands with or without modes, one or two operands, remarks, blank lines, '
          'an END line with labels and with or without expression - that renders an abstract program having a meaning (spec/Meaning.v: labels are offsets from the referring instruction, END-line labels the address past the code, dialect defaults for omitted modes and modifiers, lone-operand rule, fields modulo the core size, ORG/END entry point) '
          'is assembled by compile_warrior to exactly that code, entry point and comment metadata, for both dialects and every valid configuration; a concrete program exercising all of this is checked by vm_compute to meet the hypotheses. '
          'Also proved separately: lexer on any sequence of well-placed lexemes; default-modifier tables equal the reference tables; one substitution pass is token-wise and replaces every EQU name by its text; mnemonics recognised under every letter-casing; entry point lemma. '
-         'NOT proved: EQU lines, FOR blocks and ;assert lines inside the end-to-end statement (kept as C03_full_statement; parts in C07, C08, C14). That statement is decided on every run by the two-stage correspondence: generated abstract programs rendered under several styles by the extracted renderer, assembled by gmars and by the extracted model, compared with the extracted meaning.'),
+         'EQU: the reference substitutes names pass by pass with the definitions as written and evaluates the token list; the compiler uses its table of resolved values - both arrive at the same token list (C03Equ) and both evaluators give it the same value (C07Inverse), definitions that refer to each other along a rank pass the cycle check. NOT proved: FOR blocks and ;assert lines inside the end-to-end statement (kept as C03_full_statement; parts in C07, C08), EQU together with an END line. That statement is decided on every run by the two-stage correspondence: generated abstract programs rendered under several styles by the extracted renderer, assembled by gmars and by the extracted model, compared with the extracted meaning.'),
    design_ref='DESIGN.md 0.2, 5 C03', note=NOTE_STD + ' EQU/FOR/;assert programs are covered by differential testing against the by-construction meaning; the end-to-end theorem covers labelled instructions with ORG/END in every layout.',
    technique='Coq end-to-end theorem for EQU/FOR-free programs (positioned-parser symbolic execution by induction over documents, refinement of the compile stage to the independent meaning function, lexer lemma for arbitrary spacing) + compile-stage lemmas + per-run two-stage differential correspondence against the independent meaning function'),
  'C08': dict(
